@@ -13,7 +13,14 @@ from ..lab import CONTENTS, LFS, make_odb
 from ..world import World, digest_obj, walk_dirs, walk_files, write_tree
 
 U = ["a", "b", "s/a", "s/é", "s/t/a"]
+BIG = {"big1": b"1" * (2**20 + 1), "big2": b"2" * (2**20 + 1)}
+CONTENTS = dict(CONTENTS, **BIG)
+
 EXTRA_TREES = [
+    {"a\\b": "x", "a/b": "crlf", "s/t\\u": "bin"},                       # backslash is a legal name character
+    {"run/a": "x", "run2/b": "crlf", "sub/a/f": "x", "sub/ab/g": "bin"},   # sibling names sharing a string prefix
+    {"L1": "big1", "L2": "big2", "a": "x", "z": "crlf"},                   # two large files route through the pool
+    {"d/L1": "big1", "d/L2": "big1", "d/a": "x", "d/z": "e"},
     {"sp ace": "lf", "a.dir": "x", "s/t/a": "bin"},
     {"a": "x", "b": "x", "s/a": "x"},
     {"s/t/a": "e", "s/é": "e"},
@@ -76,6 +83,14 @@ def one_exec(tree, kind, path, link, with_state, single=None):
                 os.makedirs(os.path.join(src, "emptyd", "deeper"), exist_ok=True)  # not tracked
                 want = dict(files)
                 want_listing = {rel: ref.md5(b) for rel, b in files.items()}
+            if state is not None and single is None:
+                # partially warm hash-state: the last file of every directory is already known
+                from dvc_data.hashfile.hash import hash_file
+
+                for root, _dirs, fnames in os.walk(src):
+                    if fnames:
+                        last = os.path.join(root, sorted(fnames)[-1])
+                        hash_file(last, LFS, "md5", state=state)
             out = w.p("out", "target")
             os.makedirs(w.p("out"))
             if path in ("object", "lazy") or single is not None and path != "index":
